@@ -413,10 +413,25 @@ class Defs:
     """Local definitions of one body: lid -> list of defining expressions (let initialisers, assignments,
     for-loop iterables, match scrutinees for pattern bindings)."""
 
-    def __init__(self, body):
+    def __init__(self, body, facts=None):
+        """With `facts`, a call that receives a local through `&mut` also defines it (from the call's other
+        arguments), and element/field assignments define their root local (weak definitions)."""
         self.defs = {}
         for x in walk(body):
             k = x.get("k")
+            if facts is not None and k in ("Call", "MCall"):
+                args = ([x["recv"]] if k == "MCall" else []) + x.get("args", [])
+                for a in args:
+                    if facts.ty_adj(a).startswith("&mut ") or facts.ty(a).startswith("&mut "):
+                        rl = root_local(a)
+                        if rl:
+                            self.defs.setdefault(rl[0], []).extend(b for b in args if b is not a)
+            if facts is not None and k in ("Assign", "AssignOp"):
+                rl = root_local(x["lhs"])
+                if rl and local_of(x["lhs"]) is None:
+                    self.defs.setdefault(rl[0], []).append(x["rhs"])
+                    if x["lhs"].get("k") == "Index":
+                        self.defs.setdefault(rl[0], []).append(x["lhs"]["i"])
             if k == "Let" and "init" in x:
                 for lid, _ in pat_bindings(x["pat"]):
                     self.defs.setdefault(lid, []).append(x["init"])
@@ -451,6 +466,18 @@ class Defs:
                 if x.get("k") == "Path" and x.get("res") == "local" and x["lid"] not in seen_l:
                     seen_l.add(x["lid"])
                     work.extend(self.defs.get(x["lid"], []))
+        return out
+
+    def param_names(self, node, item):
+        """Names of the function's parameters that `node` (transitively through local definitions) mentions."""
+        plids = {}
+        for p in item["params"]:
+            if p["pat"].get("k") == "PBind":
+                plids[p["pat"]["lid"]] = p["pat"]["name"]
+        out = set()
+        for x in self.closure(node):
+            if x.get("k") == "Path" and x.get("res") == "local" and x["lid"] in plids:
+                out.add(plids[x["lid"]])
         return out
 
     def derives_from_call(self, node, name):
